@@ -103,7 +103,7 @@ def key(op, impl, M, S):
         d = SITES.get(site.split("@")[0] + "@" + site.split(">")[-1], d)
     if t[1] == "silent" and impl != M:
         # message functions / a source answering "": the implementation leaves the priority chain the model proves
-        return "silent:%s:configured-%s:silent-%s:model-differs" % (d.get("leaf", site), t[6], t[7])
+        return "silent:%s:model-differs" % d.get("leaf", site)
     if impl in ("panic", "n"):
         return "wire:%s:%s" % (site, {"panic": "panic", "n": "issue-not-reported"}[impl])
     k = "wire:%s:missing-%s" % (d.get("leaf", site), d.get("missing", "?") or "none")
